@@ -115,6 +115,12 @@ func runRPC(t *testing.T, rc *core.RunCtx, prop string) {
 	lops := genOps(tp.Range(0, 6), false, "l")
 	// history the source already has when the client connects
 	pops := genOps(tp.Draw(5), false, "p")
+	// sometimes the source is old: its tick sum plus queue tick is around the
+	// checksum's modulus (256) when the client connects
+	warm := 0
+	if tp.Draw(6) == 0 {
+		warm = 105 + tp.Draw(40)
+	}
 	rops := genOps(tp.Range(0, 5), true, "r")
 	// faults
 	type fault struct {
@@ -136,7 +142,7 @@ func runRPC(t *testing.T, rc *core.RunCtx, prop string) {
 	if tp.Draw(4) == 0 {
 		sites["rpc.push.busy"] = 3
 	}
-	rc.Desc = fmt.Sprintf("user=%v mode=%s list=%s noschema=%v subset=%v push=%v pre=%v local=%v remote=%v faults=%v sites=%v", uschema, mode, listKind, noSchema, subset, iv, pops, lops, rops, faults, sites)
+	rc.Desc = fmt.Sprintf("user=%v mode=%s list=%s noschema=%v subset=%v push=%v pre=%v warm=%d local=%v remote=%v faults=%v sites=%v", uschema, mode, listKind, noSchema, subset, iv, pops, warm, lops, rops, faults, sites)
 
 	core.Bubble(t, rc, func(s *core.Sim) {
 		s.Horizon = 2 * time.Second
@@ -201,6 +207,12 @@ func runRPC(t *testing.T, rc *core.RunCtx, prop string) {
 			hist = append(hist, snap{src.Time(nil), src.QueueTick()})
 			s.Logf("source #%d %v q%d", len(hist)-1, src.Time(nil), src.QueueTick())
 			if id, ok := tx.Mutation.Args["op"].(string); ok {
+				if _, dup := srcPos[id]; dup && strings.HasPrefix(id, "r") {
+					// (everything judged afterwards would be about which of the
+					// two executions the client's answer belongs to)
+					s.Fail(prop+"/executed-twice/"+mode, "remote mutation %s was executed twice on the source (snapshots #%d and #%d): the client retried a call that had already been carried out", id, srcPos[id], len(hist)-1)
+					return
+				}
 				if tx.IsAccepted.Load() {
 					srcRes[id] = am.Executed
 				} else {
@@ -315,6 +327,13 @@ func runRPC(t *testing.T, rc *core.RunCtx, prop string) {
 		}
 		booted := false
 		s.Go("boot", func() {
+			for i := 0; i < warm; i++ {
+				if i%2 == 0 {
+					src.Add1(user[0], nil)
+				} else {
+					src.Remove1(user[0], nil)
+				}
+			}
 			for _, o := range pops {
 				var st am.S
 				for _, j := range o.states {
